@@ -32,7 +32,7 @@ func init() {
 		Assumptions: []string{"logs are sampled, limits enumerated", "MaxHistory mode uses a wildcard write list so that the constructor-built store's simple controller is equivalent"},
 		Cases:       c15Cases,
 		Run:         c15Run,
-		MinDistinct: map[string]int{"quick": 80, "thorough": 500},
+		MinDistinct: map[string]int{"quick": 70, "thorough": 350},
 		Batch:       10,
 		Explain:     "oracle: no panic, no error; visible count = min(n,total) for n>0 and total for n<=0; the listing is a subsequence of the full reference order and contains its newest entry; for a single writer it is exactly the last n; view = replay of the listing.",
 	})
@@ -125,9 +125,7 @@ func c15Run(c fw.Case) fw.Verdict {
 	e.W.Settle()
 	e.W.DropAll()
 	for _, o := range others {
-		ctx, cancel := context.WithTimeout(bg, 30*time.Second)
-		_ = sP.Sync(ctx, cloneHeads(headsOf(db.Stores[o.Idx])))
-		cancel()
+		_ = sP.Sync(bg, cloneHeads(headsOf(db.Stores[o.Idx]))) // the request context must outlive the asynchronous replication
 		e.W.Flush()
 	}
 	if shape == "merged" {
